@@ -7,6 +7,8 @@ Cases == {[kind |-> k, shape |-> "chain", n |-> n] : k \in Kinds, n \in 1..3}
          \cup {[kind |-> k, shape |-> "cycle", n |-> n] : k \in Kinds, n \in 1..3}
          \cup {[kind |-> k, shape |-> "deep", n |-> Limit + 1] : k \in Kinds}
          \cup {[kind |-> "schema", shape |-> "diamond", n |-> n] : n \in 1..2}
+         \* one of two referrers of a schema writes a keyword beside its $ref (n: 1 default, 2 enum)
+         \cup {[kind |-> "schema", shape |-> "sibling", n |-> n] : n \in 1..2}
 ASSUME ndJsonSerialize(IOEnv.VERIF_VECTORS, SetToSeq(Cases))
 VARIABLE x
 Init == x = 0
